@@ -48,7 +48,7 @@ fn check(rep: &Report, acc: &mut Acc, it: &Item, rank: u64) {
         rxs.last = it.rx_last;
         if let Some(f) = p.frag_id {
             if p.kind == Kind::Inter || p.kind == Kind::End {
-                rxs.mem.frags[f as usize % 2] = Some((CtxS { label: L3A, pt: 0x0800, frag_id: f, total_len: 40, pdu_len: 2, from_reuse: false, exts: vec![] }, vec![0u8; 64]));
+                rxs.mem.set_ctx(CtxS { label: L3A, pt: 0x0800, frag_id: f, total_len: 40, pdu_len: 2, from_reuse: false, exts: vec![] }, vec![0u8; 64]);
             }
         }
         let mut d = rxs.build(DefaultCrc {}, mgr.clone());
